@@ -387,3 +387,68 @@ def xor_classical_bf(prob, pred):
         v = np.abs(s @ d).sum(axis=1)
         best = max(best, float(v.max()))
     return 0.5 + 0.5 * best
+
+
+# ----------------------------------------------------------------------------
+# XOR games: certified bracket of the optimal quantum bias
+# ----------------------------------------------------------------------------
+
+
+def xor_bias_bracket(prob, pred):
+    """Return (L, U) with L <= optimal quantum bias <= U.
+
+    L is the bias achieved by explicit unit vectors (rounded from an own Gram-matrix
+    SDP), U the value of an explicitly dual-feasible certificate (solver output
+    repaired by a diagonal shift); both are rigorous whatever the solver accuracy.
+    Returns None if the solver fails."""
+    import cvxpy as cp
+
+    prob = np.asarray(prob, dtype=float)
+    d = prob * (-1.0) ** np.asarray(pred)
+    q0, q1 = d.shape
+    n = q0 + q1
+    g = cp.Variable((n, n), symmetric=True)
+    w = np.zeros((n, n))
+    w[:q0, q0:] = d / 2
+    w[q0:, :q0] = d.T / 2
+    primal = cp.Problem(cp.Maximize(cp.trace(w @ g)), [g >> 0, cp.diag(g) == 1])
+    try:
+        primal.solve(solver=cp.SCS, eps=1e-9, max_iters=20000)
+    except Exception:
+        return None
+    if g.value is None:
+        return None
+    gv = (g.value + g.value.T) / 2
+    ew, ev = np.linalg.eigh(gv)
+    vecs = ev * np.sqrt(np.clip(ew, 0, None))  # rows are vectors
+    norms = np.linalg.norm(vecs, axis=1)
+    norms[norms == 0] = 1.0
+    vecs = vecs / norms[:, None]
+    gram = vecs @ vecs.T
+    low = float(np.sum(d * gram[:q0, q0:]))
+    # dual: min (sum u + sum v)/2  s.t.  [[diag u, -D], [-D^T, diag v]] >= 0
+    u = cp.Variable(q0)
+    v = cp.Variable(q1)
+    dual = cp.Problem(cp.Minimize((cp.sum(u) + cp.sum(v)) / 2), [cp.bmat([[cp.diag(u), -d], [-d.T, cp.diag(v)]]) >> 0])
+    try:
+        dual.solve(solver=cp.SCS, eps=1e-9, max_iters=20000)
+    except Exception:
+        return None
+    if u.value is None:
+        return None
+    uu, vv = np.array(u.value, dtype=float), np.array(v.value, dtype=float)
+    m = np.block([[np.diag(uu), -d], [-d.T, np.diag(vv)]])
+    lam = float(np.linalg.eigvalsh(m)[0])
+    shift = max(0.0, -lam) + 1e-12
+    up = float((uu.sum() + vv.sum()) / 2 + shift * n / 2)
+    return low, up
+
+
+def xor_to_general(prob, pred):
+    pred = np.asarray(pred)
+    q0, q1 = pred.shape
+    v = np.zeros((2, 2, q0, q1))
+    for a in range(2):
+        for b in range(2):
+            v[a, b] = (pred == (a ^ b)).astype(float)
+    return np.asarray(prob, dtype=float), v
